@@ -1,7 +1,9 @@
 (* Run/C05_run.v -- conservative-accounting checker for concurrent native histograms (harness/cmd/c05).
    case = (kind classic_bounds observations scrapes final flags)
      observation = (value inv res), scrape = (expo inv res), expo = (schema zt zero_count count sum pos neg classic_cum)
-   No reset is configured (NativeHistogramMinResetDuration = 0), so nothing may ever be dropped.
+   kind 0/1: no reset is configured (NativeHistogramMinResetDuration = 0), so nothing may ever be dropped.
+   kind 2: delayed resets are scheduled and fired by a timer thread; resets drop observations, so the MUST set is
+   empty (only upper bounds, self-consistency and liveness are demanded).
    For a scrape over [inv,res]: MUST = observations returned before inv, MAY = observations invoked before res.
    The boundary law (want_bucket / want_zero, exact dyadic comparison against the generated table) is C04's. *)
 From Coq Require Import ZArith List Bool.
@@ -95,10 +97,11 @@ Definition check (s : sx) : Z :=
           let ok :=
             Z.eqb flags 0 &&
             forallb (fun sc => let '(e, a, b) := sc in
-               let must := map (fun o => fst (fst o)) (filter (fun o => Z.leb (snd o) a) obs) in
+               let must := if Z.eqb kind 2 then [] else map (fun o => fst (fst o)) (filter (fun o => Z.leb (snd o) a) obs) in
                let may := map (fun o => fst (fst o)) (filter (fun o => Z.ltb (snd (fst o)) b) obs) in
                scrape_ok bounds must may e && strict_ok must may e) scr &&
-            scrape_ok bounds all all final && strict_ok all all final in
+            (if Z.eqb kind 2 then scrape_ok bounds [] all final && strict_ok [] all final
+             else scrape_ok bounds all all final && strict_ok all all final) in
           if ok then code_ok else code_spec_violation
       | _, _, _, _ => code_decode_error
       end
